@@ -7,6 +7,10 @@ import Stef.Proofs.WireSerde
 import Stef.Proofs.WireOrder
 import Stef.Proofs.WireEquiv
 import Stef.Proofs.IdlNames
+import Stef.Proofs.WireOrderRec
+import Stef.Proofs.PrintInv
+import Stef.Proofs.PrintRoundTrip
+import Stef.Proofs.PrintFix
 import Stef.Props.C12
 
 namespace Stef.Props.C13
@@ -47,37 +51,45 @@ example : deserialize (serialize (List.replicate 1024 3)) = .ok (List.replicate 
 
 /-! ### wire order
 
-  FULL STATEMENT: for every accepted schema `σ` and root `r`,
-     `initEntries σ r = wireEntries σ r`
+  STATEMENT: for every accepted schema `σ` and root `r`, `initEntries σ r = wireEntries σ r`
   (`NewWireSchema` lists the struct field counts in exactly the order in which the generated
-  `Init` code fetches them). Proved below for schemas WITHOUT recursion. For recursive schemas it
-  is not proved; it is checked on the model for every generated schema (op `ws init`: the model
-  of `Init` must consume exactly the counts the real `NewWireSchema` returns, recursion
-  included) and on the real generated code of otelstef (recursive `AnyValue`). -/
+  `Init` code fetches them). Proved for ALL schemas, recursive ones included
+  (Proofs/WireOrderRec: `NewWireSchema` is a DFS with a visited set for structs, `Init` a DFS
+  that only cuts on its stack and fetches a struct's count at its first entry; a re-descent
+  into an already fetched struct is silent). Also checked on the model for every generated
+  schema (op `ws init`) and on the real generated code of otelstef (recursive `AnyValue`). -/
 
-/-- For a schema without recursion the generated `Init` consumes exactly the entries of the wire
-    schema, in the same order (and succeeds whenever `NewWireSchema` does). The side conditions
-    hold for every schema the parser accepts: top-level names are unique (`parse_ok_wf`) and
-    identifiers start with a letter, so no name starts with `[` (the model keys array encoders
-    by `"[]" ++ element name`). All three are necessary (counterexamples in Proofs/WireOrder). -/
-theorem wire_order_partial (σ : Schema) (root : Name) (hac : σ.Acyclic)
+/-- The generated `Init` consumes exactly the entries of the wire schema, in the same order
+    (and succeeds whenever `NewWireSchema` does) - recursion through structs, arrays and
+    multimaps included. The side conditions hold for every schema the parser accepts:
+    top-level names are unique (`parse_ok_wf`) and identifiers start with a letter, so no name
+    starts with `[` (the model keys array encoders by `"[]" ++ element name`). All three are
+    necessary (counterexamples `badSchema`, `badNames`, `emptyRoot` in Proofs/WireOrder). -/
+theorem wire_order (σ : Schema) (root : Name)
     (hnd : σ.topNames.Nodup)
     (hs : ∀ s ∈ σ.structs, s.name.head? ≠ some '[')
     (hm : ∀ m ∈ σ.multimaps, m.name.head? ≠ some '[')
     (hroot : root ≠ []) (w : List (Name × Nat))
     (h1 : wireEntries σ root = .ok w) : initEntries σ root = .ok w :=
-  init_ok_of_wire_ok' σ root hac hnd hs hm hroot w h1
+  init_ok_of_wire_ok_rec σ root hnd hs hm hroot w h1
 
-/-- For every schema ACCEPTED BY THE PARSER that has no recursion, and every root of it: the
+/-- non-vacuity: `recSchema` (Proofs/WireOrderRec) has mutual recursion between `A` and `B`,
+    recursion through arrays (`[]R`, `[]B`) and through a multimap; it is not acyclic. -/
+example : initEntries recSchema ['R'] = .ok [(['R'], 4), (['A'], 1), (['B'], 3), (['C'], 0)] :=
+  wire_order recSchema ['R'] (by decide) (by decide) (by decide) (by decide) _ (by decide)
+
+example : ¬ recSchema.Acyclic := recSchema_not_acyclic
+
+/-- For every schema ACCEPTED BY THE PARSER (recursive or not) and every root of it: the
     generated `Init` consumes exactly the wire schema entries in order. (The side conditions of
-    `wire_order_partial` are discharged: names are unique by `parse_ok_wf` and are identifiers
-    by Proofs/IdlNames.) -/
-theorem wire_order_parsed (t : List Char) (σ : Schema) (h : parse t = .ok σ) (hac : σ.Acyclic)
+    `wire_order` are discharged: names are unique by `parse_ok_wf` and are identifiers by
+    Proofs/IdlNames.) -/
+theorem wire_order_parsed (t : List Char) (σ : Schema) (h : parse t = .ok σ)
     (root : Name) (hr : root ∈ σ.rootNames) (w : List (Name × Nat))
     (h1 : wireEntries σ root = .ok w) : initEntries σ root = .ok w := by
   have hn := parse_names h
   have hwf := Stef.Props.C12.parse_ok_wf t σ h
-  refine wire_order_partial σ root hac hwf.top_unique ?_ ?_ ?_ w h1
+  refine wire_order σ root hwf.top_unique ?_ ?_ ?_ w h1
   · intro s hs
     exact (hn s.name (by simp [Schema.defNames]; exact Or.inl ⟨s, hs, rfl⟩)).head_ne_bracket
   · intro m hm
@@ -87,17 +99,29 @@ theorem wire_order_parsed (t : List Char) (σ : Schema) (h : parse t = .ok σ) (
     obtain ⟨s, ⟨hs, _⟩, rfl⟩ := hr'
     exact (hn s.name (by simp [Schema.defNames]; exact Or.inl ⟨s, hs, rfl⟩)).ne_nil
 
-/-- non-vacuity: the text of `exSchema` is accepted, the result is acyclic, `R` is a root. -/
+/-- the schema `parse` returns for the sample of C12: recursion (`A` contains `[]A`, and
+    `A -> M -> []A`), an enum, dictionaries, a oneof, two roots `R`, `R2`; `U` is pruned. -/
+def sampleSchema : Schema := match parse Stef.Props.C12.sample with | .ok σ => σ | _ => {}
+
+theorem sample_parsed : parse Stef.Props.C12.sample = .ok sampleSchema := by decide +kernel
+
+/-- non-vacuity: a parsed recursive schema and its root `R`. -/
+example : initEntries sampleSchema ['R'] = .ok [(['R'], 1), (['A'], 5), (['O'], 2)] :=
+  wire_order_parsed _ _ sample_parsed ['R'] (by decide +kernel) _ (by decide +kernel)
+
+/-- non-vacuity (acyclic case): the text of `exSchema` is accepted, `R` is a root; struct `S`
+    is used three times - as a field, as an array element and as a multimap value - so
+    `NewWireSchema` cuts it twice and `Init` re-initialises it twice without fetching anything. -/
 def exText : List Char :=
   ("package p struct R root { A S B []S M MM } struct S { X T } struct T { Y int64 } " ++
    "multimap MM { key string value S }").toList
 
 example : initEntries { exSchema with pkg := [['p']] } ['R'] = .ok [(['R'], 3), (['S'], 1), (['T'], 1)] :=
-  wire_order_parsed exText { exSchema with pkg := [['p']] } (by decide +kernel) exSchema_acyclic
+  wire_order_parsed exText { exSchema with pkg := [['p']] } (by decide +kernel)
     ['R'] (by decide) _ (by decide)
 
 /-- the same for the bare count lists (what is serialized). -/
-theorem wire_order_counts_partial (σ : Schema) (root : Name) (hac : σ.Acyclic)
+theorem wire_order_counts (σ : Schema) (root : Name)
     (hnd : σ.topNames.Nodup)
     (hs : ∀ s ∈ σ.structs, s.name.head? ≠ some '[')
     (hm : ∀ m ∈ σ.multimaps, m.name.head? ≠ some '[')
@@ -108,36 +132,134 @@ theorem wire_order_counts_partial (σ : Schema) (root : Name) (hac : σ.Acyclic)
   cases hw : wireEntries σ root with
   | error e => simp [hw, Except.map] at h1
   | ok w =>
-    rw [wire_order_partial σ root hac hnd hs hm hroot w hw]
+    rw [wire_order σ root hnd hs hm hroot w hw]
     rw [hw] at h1
     exact h1
 
-/-- non-vacuity: `exSchema` (Proofs/WireOrder) uses struct `S` three times - as a field, as an
-    array element and as a multimap value - so `NewWireSchema` cuts it twice and `Init`
-    re-initialises it twice without fetching anything. -/
-example : initEntries exSchema ['R'] = .ok [(['R'], 3), (['S'], 1), (['T'], 1)] :=
-  wire_order_partial exSchema ['R'] exSchema_acyclic (by decide) (by decide) (by decide)
-    (by decide) _ (by decide)
+example : initCounts recSchema ['R'] = .ok [4, 1, 3, 0] :=
+  wire_order_counts recSchema ['R'] (by decide) (by decide) (by decide) (by decide) _ (by decide)
 
 /-! ### print -> parse
 
-  FULL STATEMENT (still false on the code as written, because of schemas without a root):
+  FULL STATEMENT (false on the code as written, ONLY because of schemas without a root):
     `∀ t σ, parse t = .ok σ → ∃ σ', parse (prettyPrint σ) = .ok σ' ∧ σ'.Equiv σ
         ∧ ∀ r ∈ σ.rootNames, wire σ' r = wire σ r`
+  (`PrintParse`, refuted by `print_parse_false_empty`: the recorded finding
+  `print-empty-schema-unparsable`). With the one excluding hypothesis `σ.PrintSafe` (at least one
+  struct is left after pruning) it is a THEOREM for every schema in the image of `parse`
+  (`print_parse`, `print_parse_safe`): the re-parsed schema is exactly `σ.norm`, the
+  definitions of `σ` sorted by name.
 
   The three PrettyPrint defects recorded earlier (`print-array-elem-dict`, `print-enum-as-uint64`,
   `print-enum-dict-unparsable`) were repaired by commit e46c0b0; `Stef/SchemaPrint.lean`
-  transcribes the repaired printer and their former witnesses round-trip now (examples below). -/
+  transcribes the repaired printer.
+
+  Proof structure (Stef/Proofs/Print*.lean):
+    PrintInv      every accepted schema satisfies `PP` (names are lexer identifiers and not
+                  keywords, dict modifiers sit where the parser accepts them, enum values are
+                  uint64, package path non-empty) - invariant of lexer, grammar, ResolveRefs,
+                  marking, pruning;
+    PrintLex      `lex (prettyPrint σ)` has the token kinds `tkSchema σ` (lexer round trip for
+                  identifiers, keywords, numbers `%d` -> ParseUint, layout);
+    PrintParse    the grammar phase on these tokens rebuilds `rawSchema σ` (unresolved types);
+    PrintResolve  `ResolveRefs` of that is `σ.norm` with the recursion flags cleared;
+    PrintFix      re-running the recursion marking and the pruning on `σ.norm` changes nothing;
+    SortNorm      sorting by name is idempotent on distinct names, so `σ.norm` is equivalent to `σ`. -/
 
 def PrintParse : Prop :=
   ∀ (t : List Char) (σ : Schema), parse t = .ok σ →
     ∃ σ', parse (prettyPrint σ) = .ok σ' ∧ σ'.Equiv σ ∧ ∀ r ∈ σ.rootNames, wire σ' r = wire σ r
 
-/-- CONJECTURE (tested by `h_schema`, NOT proved): the property restricted to schemas that keep
-    at least one struct. Kept as a definition so that the statement is visible. -/
+/-- the property restricted to schemas that keep at least one struct (proved: `print_parse_safe`). -/
 def PrintParseSafe : Prop :=
   ∀ (t : List Char) (σ : Schema), parse t = .ok σ → σ.PrintSafe →
     ∃ σ', parse (prettyPrint σ) = .ok σ' ∧ σ'.Equiv σ ∧ ∀ r ∈ σ.rootNames, wire σ' r = wire σ r
+
+/-- The explicit well-formedness predicate behind the round trip: printable (`PP`), well-formed
+    (the conclusion of C12), and recursion flags / reachability settled (re-running the two
+    post-passes of `Parse` on the name-sorted schema is the identity). -/
+structure PrintWF (σ : Schema) : Prop where
+  pp : PP σ
+  wf : σ.WF
+  marks_settled : computeRecursive (unmark σ.norm) = .ok σ.norm
+  prune_settled : pruneUnused σ.norm = some σ.norm
+
+/-- every schema in the image of `parse` satisfies `PrintWF`. -/
+theorem parse_printWF (t : List Char) (σ : Schema) (h : parse t = .ok σ) : PrintWF σ :=
+  ⟨parse_pp h, Stef.Props.C12.parse_ok_wf t σ h, (parseTokens_fixpoint h).1,
+    (parseTokens_fixpoint h).2⟩
+
+theorem sample_safe : sampleSchema.PrintSafe := by unfold Schema.PrintSafe; decide +kernel
+
+/-- non-vacuity: the sample of C12 (enum, dictionaries on a struct, a field, a multimap key, an
+    optional field, arrays, recursion, a oneof, two roots, a pruned struct). -/
+example : PrintWF sampleSchema := parse_printWF _ _ sample_parsed
+
+/-- For every schema satisfying `PrintWF` that has at least one struct, the printed text is
+    accepted and parses to the same definitions, sorted by name. -/
+theorem print_parse_wf (σ : Schema) (hw : PrintWF σ) (hs : σ.PrintSafe) :
+    parse (prettyPrint σ) = .ok σ.norm :=
+  parse_print_of_wf hw.pp hw.wf hs hw.marks_settled hw.prune_settled
+
+example : parse (prettyPrint sampleSchema) = .ok sampleSchema.norm :=
+  print_parse_wf _ (parse_printWF _ _ sample_parsed) sample_safe
+
+/-- PRINT -> PARSE ROUND TRIP: for every schema `σ` returned by `parse` that keeps at least one
+    struct, `parse (prettyPrint σ)` succeeds and returns exactly `σ` with its definitions sorted
+    by name (same types, field order, optional flags, dictionary assignments, root and recursion
+    flags). -/
+theorem print_parse (t : List Char) (σ : Schema) (h : parse t = .ok σ) (hs : σ.PrintSafe) :
+    parse (prettyPrint σ) = .ok σ.norm :=
+  print_parse_wf σ (parse_printWF t σ h) hs
+
+/-- non-vacuity: the sample of C12; its re-parsed form differs from it (definition order). -/
+example : parse (prettyPrint sampleSchema) = .ok sampleSchema.norm :=
+  print_parse _ _ sample_parsed sample_safe
+
+example : sampleSchema.norm ≠ sampleSchema := by decide +kernel
+
+/-- the name-sorted schema is equivalent to the schema. -/
+theorem norm_equiv_parsed (t : List Char) (σ : Schema) (h : parse t = .ok σ) : σ.norm.Equiv σ :=
+  norm_equiv (Stef.Props.C12.parse_ok_wf t σ h).top_unique
+
+example : sampleSchema.norm.Equiv sampleSchema := norm_equiv_parsed _ _ sample_parsed
+
+/-- "... hence the same wire schema for every root": if the printed text re-parses to an
+    equivalent schema, the wire schema of every root is unchanged. Holds for every accepted
+    schema, recursive or not. (Formerly the only proved part; now a lemma of
+    `print_parse_safe`.) -/
+theorem print_parse_partial (t : List Char) (σ σ' : Schema) (h : parse t = .ok σ)
+    (h' : parse (prettyPrint σ) = .ok σ') (he : σ'.Equiv σ) (r : Name) :
+    wire σ' r = wire σ r :=
+  wire_of_equiv he (Stef.Props.C12.parse_ok_wf t σ h).top_unique
+    (Stef.Props.C12.parse_ok_wf _ σ' h').top_unique r
+
+example : wire sampleSchema.norm ['R'] = wire sampleSchema ['R'] :=
+  print_parse_partial _ _ _ sample_parsed (print_parse _ _ sample_parsed sample_safe)
+    (norm_equiv_parsed _ _ sample_parsed) _
+
+/-- The property C13 (print/parse half) for every accepted schema that keeps at least one
+    struct: the printed text is accepted, the result is equivalent, and the wire schema of
+    every root is the same. -/
+theorem print_parse_safe : PrintParseSafe := by
+  intro t σ h hs
+  have h' := print_parse t σ h hs
+  have he := norm_equiv_parsed t σ h
+  exact ⟨σ.norm, h', he, fun r _ => print_parse_partial t σ σ.norm h h' he r⟩
+
+example : ∃ σ', parse (prettyPrint sampleSchema) = .ok σ' ∧ σ'.Equiv sampleSchema ∧
+    ∀ r ∈ sampleSchema.rootNames, wire σ' r = wire sampleSchema r :=
+  print_parse_safe _ _ sample_parsed sample_safe
+
+example : sampleSchema.rootNames = [['R'], ['R', '2']] := by decide +kernel
+
+/-- printing is stable: the re-parsed schema prints to the same text. -/
+theorem print_parse_print (t : List Char) (σ : Schema) (h : parse t = .ok σ) :
+    prettyPrint σ.norm = prettyPrint σ :=
+  prettyPrint_norm (Stef.Props.C12.parse_ok_wf t σ h).top_unique
+
+example : prettyPrint sampleSchema.norm = prettyPrint sampleSchema :=
+  print_parse_print _ _ sample_parsed
 
 /-- does the text round-trip: accepted, printed text accepted, result equivalent, same wire
     schema for root `R`. (A decidable test used for the examples only.) -/
@@ -163,7 +285,7 @@ example : roundTrips "package a struct R root { F E dict(D) } enum E { X = 1 }".
   decide +kernel
 
 /-- `print-empty-schema-unparsable`: without a root everything is pruned; `package a` alone is
-    rejected by the parser. -/
+    rejected by the parser. This is the ONLY obstruction (`print_parse_safe`). -/
 def wNoRoot : List Char := "package a struct R { F int64 }".toList
 
 theorem print_parse_false_empty : ¬ PrintParse := by
@@ -173,27 +295,7 @@ theorem print_parse_false_empty : ¬ PrintParse := by
   rw [h3] at h1
   cases h1
 
-/-- PARTIAL: the second conclusion of the property follows from the first - if the printed text
-    re-parses to an equivalent schema, the wire schema of every root is unchanged ("hence the same
-    wire schema for every root"). Holds for every accepted schema, recursive or not.
-    MISSING (not proved, only tested by `h_schema` on thousands of generated schemas - enums,
-    dictionaries on array elements, recursion included - and all checked-in ones): that for
-    every accepted `σ` with `σ.PrintSafe` (at least one struct left after pruning)
-    `parse (prettyPrint σ)` is `.ok σ'` with `σ'.Equiv σ`. That needs a lexer round trip for
-    identifiers/numbers/layout and idempotence of resolve/mark/prune on an already pruned
-    schema. -/
-theorem print_parse_partial (t : List Char) (σ σ' : Schema) (h : parse t = .ok σ)
-    (h' : parse (prettyPrint σ) = .ok σ') (he : σ'.Equiv σ) (r : Name) :
-    wire σ' r = wire σ r :=
-  wire_of_equiv he (Stef.Props.C12.parse_ok_wf t σ h).top_unique
-    (Stef.Props.C12.parse_ok_wf _ σ' h').top_unique r
-
-/-- non-vacuity: the sample of C12 (enum, array-element dictionary, recursion, two roots)
-    round-trips to an equivalent schema (definition order differs: PrettyPrint sorts by name). -/
-example : (match parse Stef.Props.C12.sample with
-    | .ok σ => (match parse (prettyPrint σ) with
-        | .ok σ' => decide (σ'.Equiv σ) && decide (σ' ≠ σ) && decide (wire σ' ['R'] = wire σ ['R'])
-        | _ => false)
-    | _ => false) = true := by decide +kernel
+/-- the excluded class is "no struct left" (the result of `parse wNoRoot`). -/
+example : ¬ (Schema.PrintSafe { pkg := [['a']] }) := by simp [Schema.PrintSafe]
 
 end Stef.Props.C13
